@@ -28,6 +28,18 @@ type chunksV struct{ cs []chunk } // value of buffer.Bytes()
 
 func (e *Exec) bufKey(p Ptr) string { return fmt.Sprintf("buf:%d%v", p.Obj.ID, p.Path) }
 
+// bufTouch records an access to a bytes.Buffer (whose content lives outside the heap model) in the current footprint.
+func (e *Exec) bufTouch(p Ptr, write bool) {
+	if e.curFoot == nil || p.Obj == nil {
+		return
+	}
+	if write {
+		e.curFoot.write(Ptr{Obj: p.Obj, Path: p.Path}, e)
+	} else {
+		e.curFoot.read(Ptr{Obj: p.Obj, Path: p.Path})
+	}
+}
+
 func (e *Exec) bufGet(p Ptr) []chunk {
 	cs, _ := e.pathAux[e.bufKey(p)].([]chunk)
 	return cs
@@ -336,14 +348,17 @@ func init() {
 			t = e.tf.Ite(t, e.tf.Int(1), e.tf.Int(0))
 		}
 		e.writes++
+		e.bufTouch(bp, true)
 		e.pathAux[e.bufKey(bp)] = append(append([]chunk{}, e.bufGet(bp)...), chunk{num: true, width: width, t: t})
 		return IfaceV{}
 	}
 	stubs["(*bytes.Buffer).Bytes"] = func(e *Exec, fr *Frame, fn *ssa.Function, a []Value) Value {
+		e.bufTouch(a[0].(Ptr), false)
 		return chunksV{cs: e.bufGet(a[0].(Ptr))}
 	}
 	stubs["(*bytes.Buffer).Reset"] = func(e *Exec, fr *Frame, fn *ssa.Function, a []Value) Value {
 		e.writes++
+		e.bufTouch(a[0].(Ptr), true)
 		delete(e.pathAux, e.bufKey(a[0].(Ptr)))
 		return nil
 	}
